@@ -64,7 +64,7 @@ class C03(Prop):
         "afa_rewrite_same_text", "afa_rewrite_same_digital",
         "phylip_strtoi32_natDec", "phylips_roundtrip_text", "phylips_roundtrip_digital", "phylips_roundtrip", "phylip_roundtrip_text", "phylip_roundtrip_digital",
         "phylip_roundtrip", "phylips_write_accepted", "phylip_write_accepted", "phylip_rewrite_same_text", "phylip_rewrite_same_digital",
-        "phylip_preserves_names_rows", "phylip_write_deterministic") + ('stockholm_write_deterministic', 'stoDigSymOk_of', 'pfam_roundtrip_plain_text', 'pfam_roundtrip_plain_digital', 'stockholm_roundtrip_plain_text', 'stockholm_roundtrip_plain_digital', 'stockholm_roundtrip_plain', 'stockholm_write_accepted', 'stockholm_preserves_names_rows', 'exSto_plain', 'exSto_writable', 'exStoDna_writable', 'exSto201_writable')] + [
+        "phylip_preserves_names_rows", "phylip_write_deterministic") + ('stockholm_write_deterministic', 'stoDigSymOk_of', 'pfam_roundtrip_plain_text', 'pfam_roundtrip_plain_digital', 'stockholm_roundtrip_plain_text', 'stockholm_roundtrip_plain_digital', 'stockholm_roundtrip_plain', 'stockholm_write_accepted', 'stockholm_preserves_names_rows', 'exSto_plain', 'exSto_writable', 'exStoDna_writable', 'exSto201_writable', 'stockholm_roundtrip_gc_gf', 'exStoAnn_writable') + ('selex_write_deterministic', 'selexDigSymOk_of', 'selex_roundtrip_plain_text', 'selex_roundtrip_plain_digital', 'selex_roundtrip_plain', 'selex_write_accepted', 'selex_write_accepted_digital', 'selex_preserves_names_rows', 'selex_rewrite_same', 'selex_rewrite_same_digital', 'exSlx_plain', 'exSlx_writable', 'exSlxDna_writable', 'a2m_write_deterministic', 'a2mDigSymOk_of', 'a2m_roundtrip_text', 'a2m_roundtrip_digital', 'a2m_roundtrip', 'a2m_write_accepted', 'a2m_write_accepted_digital', 'a2m_rows_text', 'a2m_preserves_names_rows', 'a2m_rows_digital', 'a2m_rewrite_same_text', 'a2m_rewrite_same_digital', 'lt_two_cases', 'exA2m_writable', 'exA2mDna_writable') + ('clustal_write_deterministic', 'cluDigSymOk_of', 'clustal_roundtrip_text', 'clustal_roundtrip_digital', 'clustal_roundtrip', 'clustal_write_accepted', 'clustal_rewrite_same_text', 'clustal_rewrite_same_digital', 'clustal_preserves_names_rows', 'exClu1_writable', 'exClu_writable', 'exCluDna_writable', 'psiblast_write_deterministic', 'psiblast_roundtrip_text', 'psiDigSymOk_of', 'psiblast_roundtrip_digital', 'psiblast_roundtrip', 'psiblast_write_accepted', 'psiblast_rewrite_same_text', 'psiblast_preserves_names_rows', 'exPsi1_writable', 'exPsi_writable', 'exPsiDna_writable')] + [
         "EaselModel.Msafile.afaRead_write", "EaselModel.Msafile.stoRead_write", "EaselModel.Msafile.splitLines_join", "EaselModel.Msafile.afaDigitalWritable_writable"] + [
         "EaselModel.Msafile." + t for t in ("stockholmWrite_eq", "stockholmWrite_magic", "blockStarts_length", "blockStarts_lt", "stockholm_blocks", "pfam_blocks",
                                             "strtokLF_tokens", "hasDupNames_iff", "phylipWrite_header", "phylipInterleaved_empty", "phylip_blocks", "phyRowLine_first",
@@ -96,7 +96,9 @@ class C03(Prop):
     trusted_base = ["hand model of the writers/readers tied by exact differential run (h_msafile.c op rt: bytes written and alignment read back compared)",
                     "Lean compiler/runtime for the executable driver; gcc; sanitizer runtimes",
                     "printf(\"%.2f\"/\"%.1f\") and strtod on 2-/1-decimal values are inverse (weights and cut-offs are generated with that many decimals)"]
-    assumptions = ["autodetection of library-written PHYLIP may answer eslENOFORMAT with the documented message \"can't guess format: it's consistent w/ both phylip, phylips\" "
+    assumptions = ["Clustal: a line made only of blanks and the characters . : * is by definition a consensus line, so a sequence whose name AND residues in a block "
+                   "consist of those characters only is not representable; the generator gives Clustal names at least one other character",
+                   "autodetection of library-written PHYLIP may answer eslENOFORMAT with the documented message \"can't guess format: it's consistent w/ both phylip, phylips\" "
                    "(eslEAMBIGUOUS of esl_msafile_phylip_CheckFileFormat): the monitor accepts exactly that outcome (the harness asks esl_msafile_GuessFileFormat for its message) and no other autodetection failure",
                    "allocation never fails; fprintf never fails (eslEWRITE paths not modelled)",
                    "alignments are built through the public ESL_MSA API from the op fields; names non-empty, blank-free; annotation from the legal character sets"]
@@ -150,6 +152,10 @@ class C03(Prop):
             pos = rng.sample(range(a.n), k)
             for pp, nm in zip(pos, fam[:k]):
                 if nm not in a.names: a.names[pp] = nm
+        if fmt in ("clustal", "clustallike"):
+            # a Clustal line made only of the characters " .:*" IS a consensus line (that is how the format marks it): a sequence whose name
+            # consists of '.', ':' , '*' only and whose block of residues does too cannot be represented; keep such names out
+            a.names = [nm if any(ch not in ".:*" for ch in nm) else "s" + nm for nm in a.names]
         if abc != "text" and rng.random() < 0.3:
             # missing-data '~' and nonresidue '*' symbols in digital alignments
             rows = []
